@@ -50,8 +50,10 @@ def fits(tok, cells, used_bits, used_refs, dag):
             if int(p[2]) > len(n[1]) or int(p[3]) > len(n[2]):
                 return None
             cb, cr = len(n[1]) - int(p[2]), len(n[2]) - int(p[3])
-        elif p[0] == 'sn':
-            return None
+        elif p[0] in ('sn', 'sns'):
+            # snake data: what fits goes into this cell; anything beyond needs ONE free reference slot for the chain of 127-byte cells
+            n = len(bytes.fromhex(p[1].replace('-', ''))) + (1 if p[0] == 'sns' and p[2] == '1' else 0)
+            return n <= (1023 - used_bits) // 8 or used_refs < 4
         else:
             e = S.enc_tok(tok, cells)
             cb, cr = len(e[0]), len(e[1])
@@ -74,8 +76,12 @@ def rand_store(rng, ncells, dag):
     if r < 0.65:
         n = rng.choice([1, 7, 8, 9, 100, 500, 1023])
         return rng.choice([f'b:{"1" * n}', f'by:{"ab" * (n // 8)}' if n >= 8 else 'bit:1'])
-    if r < 0.8:
+    if r < 0.76:
         return rng.choice([f'r:{rng.randrange(ncells)}', f'mr:{rng.randrange(ncells)}', 'mr:-', f'd:{rng.randrange(ncells)}', 'd:-'])
+    if r < 0.8:   # snake data shorter / longer than the room left in this cell (the tail needs a reference slot)
+        n = rng.choice([0, 1, 2, 3, 126, 127, 128, 129, 300])
+        hx_ = (bytes([97 + i % 26 for i in range(n)]).hex() or '-')
+        return rng.choice([f'sn:{hx_}', f'sns:{hx_}:{rng.randrange(2)}'])
     if r < 0.9:
         return f'cell:{rng.randrange(ncells)}'
     k = rng.randrange(ncells)
@@ -88,14 +94,33 @@ def history(ctx, dag, cells, fill_bits, fill_refs, t, ops=None):
     pre = ([f'b:{"0" * fill_bits}'] if fill_bits else []) + [f'r:0'] * fill_refs
     if ops is None:
         ops = [rand_store(rng, len(cells), dag) for _ in range(rng.randrange(1, 9))]
+        if rng.random() < 0.3:      # end_cell() in the middle of the history (result dropped): later stores must still count
+            ops.insert(rng.randrange(len(ops) + 1), 'ec')
     inp = {'dag': [list(n) for n in dag], 'prefill': [fill_bits, fill_refs], 'ops': ops}
     ctx.case(('hist', fill_bits, fill_refs, tuple(ops)), sample={'fill': [fill_bits, fill_refs], 'ops': [o[:40] for o in ops[:5]]})
     b = Builder()
     S.exec_builder(cells, pre, b)
+    # where the builder comes from must not matter: a fresh one, or one derived from a cell / slice holding the same content
+    # (the cell built on a TvmBitarray as the library does, or on a plain bitarray as a caller may)
+    origin = ('new', 'cell.to_builder', 'plain-cell.to_builder', 'slice.to_builder')[(t + fill_bits + fill_refs) % 4]
+    try:
+        if origin == 'cell.to_builder':
+            b = b.end_cell().to_builder()
+        elif origin == 'plain-cell.to_builder':
+            from pytoniq_core.boc.cell import Cell
+            from bitarray import bitarray
+            b = Cell(bitarray(b.bits.to01()), list(b.refs)).to_builder()
+        elif origin == 'slice.to_builder':
+            b = b.end_cell().begin_parse().to_builder()
+    except Exception as e:
+        ctx.fail('origin:' + origin, f'a builder could not be derived through {origin}: {type(e).__name__}', inp, repr(e), 'builder')
+        return
+    inp['origin'] = origin
+    ctx.count('origin:' + origin)
     flags = ''
     for tok in ops:
         ub, ur = len(b.bits), len(b.refs)
-        want = fits(tok, cells, ub, ur, dag)
+        want = True if tok == 'ec' else fits(tok, cells, ub, ur, dag)
         f, _, _, _, _ = S.exec_builder(cells, [tok], b)
         flags += f
         kind = tok.split(':')[0]
@@ -114,6 +139,9 @@ def history(ctx, dag, cells, fill_bits, fill_refs, t, ops=None):
         fin = c.hash.hex()
         if len(c.bits) > 1023 or len(c.refs) > 4:
             ctx.fail('capacity:cell', 'end_cell produced an oversize cell', inp, [len(c.bits), len(c.refs)], None)
+        if c.bits.to01() != b.bits.to01() or [r.hash for r in c.refs] != [r.hash for r in b.refs]:
+            ctx.fail('end_cell:stale', 'end_cell() does not hold the bits / references the builder holds now', inp,
+                     [c.bits.to01()[:64], len(c.refs)], [b.bits.to01()[:64], len(b.refs)])
     except Exception:
         fin = 'err'
         ctx.fail('end_cell', 'end_cell raised although the builder is within capacity', inp, 'exception', 'cell')
@@ -208,7 +236,7 @@ def run(ctx):
     for nrefs in range(0, 5):
         for kind in ('lr', 'pr', 'lmr', 'pmr', 'ld'):
             overread_refs(ctx, nrefs, kind)
-    dag = LEAF_DAG + [(G.ORD, '0' * 1023, (0, 1, 2, 3)), (G.ORD, '10', (0,))]
+    dag = LEAF_DAG + [(G.ORD, '0' * 1023, (0, 1, 2, 3)), (G.ORD, '10', (0,)), (G.ORD, '', (0, 1))]      # last: no data bits, two references
     cells = G.lib_build(dag)
     fills = [0, 1, 500] + list(range(1015, 1024))
     for t in range(ctx.n(100, 400)):
@@ -264,14 +292,8 @@ def replay(ctx, payload):
     if 'ops' in inp and 'prefill' in inp:
         dag = [(k, b, tuple(r)) for k, b, r in inp['dag']]
         cells = G.lib_build(dag)
-        from pytoniq_core.boc.builder import Builder
-        b = Builder()
-        S.exec_builder(cells, ([f'b:{"0" * inp["prefill"][0]}'] if inp['prefill'][0] else []) + ['r:0'] * inp['prefill'][1], b)
-        for tok in inp['ops']:
-            ub, ur = len(b.bits), len(b.refs)
-            want = fits(tok, cells, ub, ur, dag)
-            f = S.exec_builder(cells, [tok], b)[0]
-            if len(b.bits) > 1023 or len(b.refs) > 4:
-                ctx.fail('capacity:' + tok.split(':')[0], 'builder exceeds capacity (replay)', inp, [len(b.bits), len(b.refs)], None)
-            if want is not None and (f == '1') != want:
-                ctx.fail(('refused:' if want else 'accepted:') + tok.split(':')[0], 'store accept/refuse mismatch (replay)', inp, f, want)
+        fb, fr = inp['prefill']
+        for t in range(4):                       # every builder origin ...
+            for form in range(0, 6, 1 if any(o.startswith('bit:') for o in inp['ops']) else 6):     # ... and store_bit argument form
+                S._BIT_FORM[0] = form
+                history(ctx, dag, cells, fb, fr, t, ops=list(inp['ops']))
